@@ -71,5 +71,5 @@ def queries(ctx):
 
 MANIFEST = {
  "text": "Bounded model checking of the real mpz/mpn bitwise sources against a fixed-width two's-complement reference: the solver decides equality for all limb contents for every enumerated operand-size/sign/alias/allocation shape; bit indices and scan start positions are enumerated concretely around every limb boundary and far beyond the operand. This property is the one best matched to SAT: the code is pure bit logic.",
- "note": "Bounds: mpz operands <= 2 limbs quick / 3-4 thorough, mpn n <= 4 / 6; bit indices {64l, 64l+1, 64l+63 | l <= size+1} plus one far index. A symbolic bit index would make every limb access a symbolic-offset pointer (measured: 2.8M clauses per property), so indices are enumerated, limb contents are symbolic. Trusted: CBMC, __builtin_popcountl/ctzl models, the two's-complement oracle.",
+ "note": "Bounds: mpz operands <= 2 limbs quick / 3-4 thorough, mpn n <= 4 / 6 (mpn_popcount/mpn_hamdist all values n <= 2 / 3, plus domain D-PAT - every limb one of the 16 (popcount) or 4 (hamdist) corner values 0, B-1, 1, B/2, ... chosen by a symbolic selector - at n = 4, 5, 8 so that whole four-limb blocks, block + tail and two blocks of the main loop are taken); bit indices {64l, 64l+1, 64l+63 | l <= size+1} plus one far index. A symbolic bit index would make every limb access a symbolic-offset pointer (measured: 2.8M clauses per property), so indices are enumerated, limb contents are symbolic. Trusted: CBMC, __builtin_popcountl/ctzl models, the two's-complement oracle.",
 }
